@@ -12,7 +12,7 @@
 import json, os, random
 import vlib
 
-RFIX = '{"ready_unknown", "unsuback_one", "unsub_notifs", "resume_submap"}'
+RFIX = '{"ready_unknown", "unsuback_one", "unsub_notifs", "resume_submap", "group_bufferfull", "group_per_filter", "unsub_own_group", "unsub_shared_waiter", "group_skip_unread", "resume_rejoin"}'
 
 ALL_INV = ["NoPanic", "SlabsAligned", "ReadyqSound", "NoLostRequest", "DeliveredExactly", "NoSpurious", "AcksInOrder",
            "WindowBound", "UniqueInflightIds", "InflightIdsValid", "QuiescentComplete"]
@@ -21,7 +21,7 @@ BASE = dict(
     Nets='{"n1", "n2"}', MaxConn=2, MaxInflight=3, MaxChan=4, MaxSched=2, OutBatch=2,
     CIDs='{"c1", "c2"}', SubQoS="{1}", PubQoS="{0, 1}", PubRetain="{FALSE}",
     Subscribers='{"n1"}', Publishers='{"n2"}', Adversaries="{}", MaxPub=3, MaxSubOps=2, MaxCloses=0,
-    EnUnsub="TRUE", EnPing="FALSE", EnDisconnect="FALSE", EnStale="FALSE", PubEmpty="{FALSE}", RFix=RFIX)
+    EnUnsub="TRUE", EnPing="FALSE", EnDisconnect="FALSE", EnStale="FALSE", PubEmpty="{FALSE}", RFix=RFIX, Strategy='"RoundRobin"')
 SUBST = dict(MatchRel="MCMatch", Topics="MCTopics", Filters="MCFilters", NetCid="MCNetCid", NetClean="MCAllClean", NetWill="MCNoWill")
 
 
@@ -43,6 +43,7 @@ def write(ctx, name, text):
 def model_check(ctx, name, consts, inv, subst=None, workers=8, timeout=3000, act=()):
     c = dict(BASE); c.update(consts)
     sb = dict(SUBST); sb.update(subst or {})
+    sb.setdefault("SubFilters", sb["Filters"])
     tail = "SPECIFICATION Spec\nCONSTRAINT ChanBound\nINVARIANTS %s\n" % " ".join(inv)
     if act:
         tail += "PROPERTIES %s\n" % " ".join(act)
@@ -53,6 +54,7 @@ def model_check(ctx, name, consts, inv, subst=None, workers=8, timeout=3000, act
 def gen_scripts(ctx, name, consts, want, depth, subst=None):
     c = dict(BASE); c.update(consts); c["EmitAt"] = depth
     sb = dict(SUBST); sb.update(subst or {})
+    sb.setdefault("SubFilters", sb["Filters"])
     cfg = write(ctx, "MC_RouterGen_" + name, cfg_text(c, sb, "SPECIFICATION GenSpec\nINVARIANTS EmitScript\nCHECK_DEADLOCK FALSE\n"))
     return vlib.tlc_generate(ctx, "MC_RouterGen", cfg, "SCRIPT", want, depth, workers=3, name="routergen_" + name)
 
@@ -75,8 +77,8 @@ def run_and_validate(ctx, pid, bindir, scripts, tag, inv, small, max_conn=2, out
     out_batch = scripts[0].get("cfg", {}).get("out_batch", out_batch)
     consts = dict(Nets=nets, MaxConn=max_conn, MaxInflight=3 if small else 100, MaxChan=4 if small else 200, MaxSched=2 if small else 100,
                   OutBatch=out_batch, CIDs='{"c1", "c2", "c3"}', SubQoS="{}", PubQoS="{}", PubRetain="{}", Subscribers="{}", Publishers="{}",
-                  Adversaries="{}", MaxPub=0, MaxSubOps=0, MaxCloses=100, EnUnsub="TRUE", EnPing="TRUE", EnDisconnect="TRUE", EnStale="TRUE", PubEmpty="{}", RFix=RFIX)
-    subst = dict(MatchRel="TMatch", Topics="TTopics", Filters="TFilters", NetCid="TNetCid", NetClean="TClean", NetWill="TNoWill")
+                  Adversaries="{}", MaxPub=0, MaxSubOps=0, MaxCloses=100, EnUnsub="TRUE", EnPing="TRUE", EnDisconnect="TRUE", EnStale="TRUE", PubEmpty="{}", RFix=RFIX, Strategy='"%s"' % scripts[0].get("cfg", {}).get("strategy", "RoundRobin"))
+    subst = dict(MatchRel="TMatch", Topics="TTopics", Filters="TFilters", SubFilters="TFilters", NetCid="TNetCid", NetClean="TClean", NetWill="TNoWill")
     cfg = write(ctx, "MC_RouterTrace_" + tag, cfg_text(consts, subst,
                 "SPECIFICATION TraceSpec\nINVARIANTS %s\n%sCONSTRAINT Progress\nPOSTCONDITION TraceAccepted\nCHECK_DEADLOCK FALSE\n"
                 % (" ".join(inv), ("PROPERTIES %s\n" % " ".join(act)) if act else "")))
@@ -122,6 +124,10 @@ NOMSG = {"m": 0, "topic": "none", "q": 0, "retain": False, "empty": False}
 
 
 def ch(s):
+    # a shared path is <<"$share/", group, "/", filter symbols...>> in Router.tla
+    if s.startswith("$share/") and "/" in s[7:]:
+        group, path = s[7:].split("/", 1)
+        return ["$share/", group, "/"] + list(path)
     return list(s)
 
 
